@@ -9,22 +9,30 @@ From Coq Require Import Reals Lra Lia ZArith NArith List Bool.
 From Flocq Require Import Core Sterbenz BinarySingleNaN.
 Import ListNotations.
 
-(** * NaN at the instant of a recorded backwards seek (no reset anywhere in the history):
+(** * The instant of a recorded backwards seek (no reset anywhere in the history):
     create at 0 (length 100); update(set_pos 10) at 1 s; update(set_pos 5) at 2 s; query at 2 s.
-    The table holds what 0.1f64.powf returns for the two exponents that occur (1/15 and 0). *)
+    The table holds what 0.1f64.powf returns for the two exponents that occur (1/15 and 0).
+    REGRESSION: the function before fix 56491a5 yields NaN (0 * 1 / 0); the current one 0.0, and
+    the whole observation is (per_sec +0.0, eta 0, duration = elapsed = 2 s). *)
 Definition nan_wit_ops : list eop :=
   [Adv 1000000000; UpdPos 10; Adv 1000000000; UpdPos 5; Query].
 Definition nan_wit_tbl : list (N * N) :=
   [(4589468260265693457, 4605900657403858723); (0, ONE_BITS)]%N.
 
-Theorem fl_rewind_instant_nan :
+Theorem fl_rewind_instant_pre_56491a5 :
   exists tbl len t0 ops,
     table_ok tbl = true /\ forallb (fun o => negb (is_reset_op o)) ops = true /\
-    run_obs (FL.ar tbl) FL.to_bits len t0 ops =
-      [(NAN_BITS, Some 0, Some 2000000000, 2000000000)%N].
+    let b := fst (run_state (FL.ar tbl) ops t0 (bar_new (FL.ar tbl) len t0)) in
+    let now := snd (run_state (FL.ar tbl) ops t0 (bar_new (FL.ar tbl) len t0)) in
+    (t0 < now)%N /\ b_done b = false /\
+    FL.to_bits (est_sps_pre_56491a5 (FL.ar tbl) (b_est b) now) = NAN_BITS /\
+    FL.to_bits (est_sps (FL.ar tbl) (b_est b) now) = 0%N /\
+    run_obs (FL.ar tbl) FL.to_bits len t0 ops = [(0, Some 0, Some 2000000000, 2000000000)%N].
 Proof.
   exists nan_wit_tbl, (Some 100%N), 0%N, nan_wit_ops.
-  split; [reflexivity|]. split; [reflexivity|]. vm_compute. reflexivity.
+  split; [reflexivity|]. split; [reflexivity|]. cbv zeta.
+  split; [vm_compute; reflexivity|]. split; [vm_compute; reflexivity|].
+  split; [vm_compute; reflexivity|]. split; vm_compute; reflexivity.
 Qed.
 
 (** * The rate is exactly 0 (and eta() = 0) as soon as powf returns 0 for both ages, whatever
@@ -65,6 +73,10 @@ Proof.
   rewrite H1, H2.
   change (sub (FL.arp p)) with (@Bminus 53 1024 FL.Hp FL.Hm mode_NE).
   rewrite (fsub_zero_r _ (fone_strict p)).
+  assert (Hnz : is_zero (FL.arp p) (fone (FL.arp p)) = false).
+  { cbn [is_zero FL.arp]. assert (H := fone_strict p).
+    destruct (fone (FL.arp p)); try discriminate H. reflexivity. }
+  rewrite Hnz.
   exact (zero_rate_shape (fone (FL.arp p)) (sm e) (dsm e) (fone_strict p) Hs Hd).
 Qed.
 
@@ -387,23 +399,41 @@ Definition KS : Z := 95.   (* smoothed <= 2^95 *)
 Definition KD : Z := 149.  (* double_smoothed <= 2^149 *)
 Definition state_bnd (e : est F) : Prop := bnd (sm e) KS /\ bnd (dsm e) KD.
 
-Theorem fl_sps_finite_nonneg : forall p (e : est F) now,
-  pow_ok p -> state_bnd e -> (now < U64)%N -> (start_time e < now)%N ->
-  bnd (est_sps (FL.arp p) e now) 203.
+Lemma fzero_bnd : forall p k, bnd (fzero (FL.arp p)) k.
 Proof.
-  intros p e now Hp [Hs Hd] Hn Hst. unfold est_sps. cbv zeta.
-  assert (H1 : (since now (prev_time e) < U64)%N) by (unfold since; lia).
-  assert (H2 : (since now (start_time e) < U64)%N) by (unfold since; lia).
-  assert (H3 : (1 <= since now (start_time e))%N) by (unfold since; lia).
-  destruct (weight_bnd p _ Hp H1) as [Hw _].
-  destruct (total_weight_bnd p _ Hp H2 H3) as [(Ft & _) Htlow].
-  set (w := est_weight (FL.arp p) (dur_secs (FL.arp p) (since now (prev_time e)))) in *.
-  set (tw := sub (FL.arp p) (fone (FL.arp p))
-               (est_weight (FL.arp p) (dur_secs (FL.arp p) (since now (start_time e))))) in *.
-  change (mul (FL.arp p)) with fmul. change (div (FL.arp p)) with fdiv.
-  change (add (FL.arp p)) with fadd. change (sub (FL.arp p)) with fsub.
-  change (fone (FL.arp p)) with fone64. change (T (FL.arp p)) with F in *.
-  unfold KS, KD in *.
+  intros p k. unfold fzero.
+  destruct (of_int_bnd p 0 ltac:(unfold U64; lia)) as [(Fz & _) E].
+  split; [exact Fz|]. rewrite E. cbn [Z.of_N]. rewrite round_0 by auto with typeclass_instances.
+  split; [lra | apply bpow_ge_0].
+Qed.
+
+(** the normaliser for ANY age (also 0): finite, and either a zero - then steps_per_second
+    returns 0.0 (fix 56491a5) - or at least 2^-53 *)
+Lemma total_weight_cases : forall p d, pow_ok p -> (d < U64)%N ->
+  let tw := sub (FL.arp p) (fone (FL.arp p)) (est_weight (FL.arp p) (dur_secs (FL.arp p) d)) in
+  is_finite tw = true /\
+  (FL.fis_zero tw = true \/ (FL.fis_zero tw = false /\ bpow radix2 (-53) <= B2R tw)).
+Proof.
+  intros p d Hp Hd tw. destruct (weight_bnd p d Hp Hd) as [Hw _].
+  unfold tw. change (sub (FL.arp p)) with fsub. change (fone (FL.arp p)) with fone64.
+  destruct (fsub_one_bnd _ Hw) as [(Ft & _) Et]. split; [exact Ft|].
+  set (w := est_weight (FL.arp p) (dur_secs (FL.arp p) d)) in *.
+  assert (Hw1 : B2R w <= 1) by (destruct Hw as (_ & _ & H); exact H).
+  destruct (Rle_lt_or_eq_dec _ _ Hw1) as [Hlt | Heq].
+  - right. assert (Hlow := fsub_one_pos w Hw Hlt). split; [|exact Hlow].
+    destruct (fsub fone64 w) as [s0| | |s0 m0 e0 H0]; try reflexivity.
+    cbn [B2R] in Hlow. assert (0 < bpow radix2 (-53)) by apply bpow_gt_0. lra.
+  - left. rewrite Heq in Et. replace (1 - 1) with 0 in Et by ring.
+    rewrite round_0 in Et by auto with typeclass_instances.
+    destruct (fsub fone64 w) as [s0| | |s0 m0 e0 H0]; try discriminate Ft; try reflexivity.
+    exfalso. cbn [B2R] in Et. apply eq_0_F2R in Et. destruct s0; discriminate Et.
+Qed.
+
+Lemma sps_body_bnd : forall s d w tw : F,
+  bnd s 95 -> bnd d 149 -> bnd w 0 -> is_finite tw = true -> bpow radix2 (-53) <= B2R tw ->
+  bnd (fdiv (fadd (fmul d w) (fmul (fdiv (fmul s w) tw) (fsub fone64 w))) tw) 203.
+Proof.
+  intros s d w tw Hs Hd Hw Ft Htlow.
   destruct (fmul_bnd _ _ 95 0 Hs Hw ltac:(lia)) as [Bsw _].
   destruct (fdiv_bnd _ _ (95 + 0) (-53) Bsw Ft Htlow ltac:(lia)) as [Bsps _].
   destruct (fsub_one_bnd w Hw) as [Bomw _].
@@ -411,13 +441,35 @@ Proof.
   destruct (fmul_bnd _ _ 149 0 Hd Hw ltac:(lia)) as [Bdw _].
   change (95 + 0 - -53 + 0)%Z with 148%Z in Bt3. change (149 + 0)%Z with 149%Z in Bdw.
   destruct Bdw as (Fdw & Hdw0 & Hdw1). destruct Bt3 as (Ft3 & Ht30 & Ht31).
-  assert (Hsum : B2R (fmul (dsm e) w) +
-                 B2R (fmul (fdiv (fmul (sm e) w) tw) (fsub fone64 w)) <= bpow radix2 150).
+  assert (Hsum : B2R (fmul d w) + B2R (fmul (fdiv (fmul s w) tw) (fsub fone64 w)) <= bpow radix2 150).
   { change 150%Z with (149 + 1)%Z. rewrite bpow_double.
     assert (bpow radix2 148 <= bpow radix2 149) by (apply bpow_le; lia). lra. }
   destruct (fadd_bnd _ _ 150 Fdw Ft3 Hdw0 Ht30 Hsum ltac:(lia)) as [Bdsps _].
   destruct (fdiv_bnd _ _ 150 (-53) Bdsps Ft Htlow ltac:(lia)) as [Bres _].
   exact Bres.
+Qed.
+
+(** at EVERY query instant, the instant of the restart included *)
+Theorem fl_sps_finite_nonneg : forall p (e : est F) now,
+  pow_ok p -> state_bnd e -> (now < U64)%N ->
+  bnd (est_sps (FL.arp p) e now) 203.
+Proof.
+  intros p e now Hp [Hs Hd] Hn. unfold est_sps. cbv zeta.
+  assert (H1 : (since now (prev_time e) < U64)%N) by (unfold since; lia).
+  assert (H2 : (since now (start_time e) < U64)%N) by (unfold since; lia).
+  destruct (weight_bnd p _ Hp H1) as [Hw _].
+  destruct (total_weight_cases p _ Hp H2) as [Ft Hcases].
+  change (T (FL.arp p)) with F in *.
+  set (w := est_weight (FL.arp p) (dur_secs (FL.arp p) (since now (prev_time e)))) in *.
+  set (tw := sub (FL.arp p) (fone (FL.arp p))
+               (est_weight (FL.arp p) (dur_secs (FL.arp p) (since now (start_time e))))) in *.
+  change (is_zero (FL.arp p)) with FL.fis_zero. change (T (FL.arp p)) with F in *.
+  destruct Hcases as [Z | [Z Htlow]]; rewrite Z.
+  - apply fzero_bnd.
+  - change (mul (FL.arp p)) with fmul. change (div (FL.arp p)) with fdiv.
+    change (add (FL.arp p)) with fadd. change (sub (FL.arp p)) with fsub.
+    change (fone (FL.arp p)) with fone64. change (T (FL.arp p)) with F in *.
+    unfold KS, KD in *. now apply sps_body_bnd.
 Qed.
 
 (** ** RECORD keeps the two averages finite, non-negative and bounded
@@ -473,14 +525,6 @@ Proof.
       assert (Hk0 : 0 < bpow radix2 k) by apply bpow_gt_0.
       nra. }
   destruct (fadd_bnd _ _ (k + 1) Fa Fb Ha0 Hb0 Hsum ltac:(lia)) as [B _]. exact B.
-Qed.
-
-Lemma fzero_bnd : forall p k, bnd (fzero (FL.arp p)) k.
-Proof.
-  intros p k. unfold fzero.
-  destruct (of_int_bnd p 0 ltac:(unfold U64; lia)) as [(Fz & _) E].
-  split; [exact Fz|]. rewrite E. cbn [Z.of_N]. rewrite round_0 by auto with typeclass_instances.
-  split; [lra | apply bpow_ge_0].
 Qed.
 
 Theorem fl_record_bnd : forall p (e : est F) new now, pow_ok p -> state_bnd e ->
@@ -542,14 +586,13 @@ Qed.
 Theorem fl_history_finite_nonneg : forall p evs t0 now,
   pow_ok p -> Forall ev_u64 evs -> (now < U64)%N ->
   let e := est_runA (FL.arp p) evs (est_new (FL.arp p) t0) in
-  (start_time e < now)%N ->
   is_finite (est_sps (FL.arp p) e now) = true /\ 0 <= B2R (est_sps (FL.arp p) e now).
 Proof.
-  intros p evs t0 now Hp Hall Hn e Hst.
+  intros p evs t0 now Hp Hall Hn e.
   destruct (fl_run_bnd p evs (est_new (FL.arp p) t0) Hp Hall) as [Hb _].
   - unfold est_new, state_bnd. cbn [sm dsm]. split; apply fzero_bnd.
   - unfold est_new. cbn [prev_time start_time]. lia.
-  - destruct (fl_sps_finite_nonneg p e now Hp Hb Hn Hst) as (Hf & H0 & _). split; assumption.
+  - destruct (fl_sps_finite_nonneg p e now Hp Hb Hn) as (Hf & H0 & _). split; assumption.
 Qed.
 
 (** ** every history of public ProgressBar calls with u64 arguments (binary64 instance) *)
@@ -629,7 +672,7 @@ Theorem fl_bar_finite_nonneg : forall p len t0 ops,
   pow_ok p -> (t0 < U64)%N -> (forall l, len = Some l -> (l < U64)%N) -> Forall op_u64 ops ->
   let b := fst (run_state (FL.arp p) ops t0 (bar_new (FL.arp p) len t0)) in
   let now := snd (run_state (FL.arp p) ops t0 (bar_new (FL.arp p) len t0)) in
-  (if b_done b then (b_started b < now)%N else (start_time (b_est b) < now)%N) ->
+  (b_done b = true -> (b_started b < now)%N) ->
   is_finite (bar_per_sec (FL.arp p) b now) = true /\ 0 <= B2R (bar_per_sec (FL.arp p) b now).
 Proof.
   intros p len t0 ops Hp Ht0 Hlen Hall b now Hdom.
@@ -643,13 +686,14 @@ Proof.
   fold b in Hb, Hwf, Hpos. fold now in Hn.
   unfold bar_per_sec. destruct (b_done b).
   - (* finished: pos / elapsed *)
+    specialize (Hdom eq_refl).
     destruct (of_int_bnd p (b_pos b) Hpos) as [Bp _].
     assert (Hd : (since now (b_started b) < U64)%N) by (unfold since; lia).
     assert (Hd1 : (1 <= since now (b_started b))%N) by (unfold since; lia).
     destruct (dur_secs_bnd p _ Hd) as [(Fd & _) Hlow]. specialize (Hlow Hd1).
     destruct (fdiv_bnd _ _ 64 (-30) Bp Fd Hlow ltac:(lia)) as [(Hf & H0 & _) _].
     split; assumption.
-  - destruct (fl_sps_finite_nonneg p (b_est b) now Hp Hb Hn Hdom) as (Hf & H0 & _). split; assumption.
+  - destruct (fl_sps_finite_nonneg p (b_est b) now Hp Hb Hn) as (Hf & H0 & _). split; assumption.
 Qed.
 
 (** the two zero-rate facts as one statement for props/C09.v *)
